@@ -572,6 +572,9 @@ class EvalFunc:
                 trig_ctx_name,
                 ", ".join(sorted(trig_decorators_reqd)),
             )
+            if len(self.trigger_service) > 0:
+                # its services work (the guards don't apply to them) and have to go with the script
+                trig_ctx.trigger_register(self)
             return
 
         if len(trig_decs) == 0:
